@@ -121,13 +121,12 @@ class DBModel(object):
         return name, (best[1] if best else None)
 
 
-def run(ctx):
-    prog, rep = ctx.prog, ctx.report
-    db = DBModel(prog)
+def r_sql_columns(prog, rep, db=None):
+    """shared with C01 / C02: the epochs, signature, value and dependency list a later process scans with are the ones recorded"""
+    db = db or DBModel(prog)
     rr_cols = [c[0] for c in db.tables["rule_results"]]
     rr_aff = {c[0]: c[2] for c in db.tables["rule_results"]}
     key_aff = {c[0]: c[2] for c in db.tables["key_names"]}
-
     # ------------------------------------------------------------------ writer
     r = rep.rule("R-SQL-COLUMNS",
                  "rule_results: the k-th bound parameter of the INSERT is the Result field of the k-th column of the CREATE "
@@ -223,6 +222,18 @@ def run(ctx):
         r.check(n_reads >= 10, "%s|%s|reads" % (fname, stmt), "%d column reads" % n_reads, "only %d column reads found" % n_reads, g)
         # every rule_results column is selected
         r.check(set(rr_cols) <= set(sel["bare"]), "%s|%s|select-list" % (fname, stmt), "", "SELECT list misses %s" % sorted(set(rr_cols) - set(sel["bare"])), g)
+    return r
+
+
+def run(ctx):
+    prog, rep = ctx.prog, ctx.report
+    db = DBModel(prog)
+    rr_cols = [c[0] for c in db.tables["rule_results"]]
+    rr_aff = {c[0]: c[2] for c in db.tables["rule_results"]}
+    key_aff = {c[0]: c[2] for c in db.tables["key_names"]}
+
+    r_sql_columns(prog, rep, db)
+    f = prog.fn(DB + "::setRuleResult")
 
     # ------------------------------------------------------------------ dependency word
     r = rep.rule("R-DEPBLOB-BITS",
